@@ -23,6 +23,8 @@ import LyModel.Props.C01LybTree
 #print axioms LyModel.Props.C01Lyb.lyb_skip_lands_at_end_partial
 #print axioms LyModel.Props.C01Lyb.lyb_skip_top_frame
 #print axioms LyModel.Props.C01LybTree.lyb_tree_roundtrip
+#print axioms LyModel.Props.C01LybTree.lyb_tree_roundtrip_tagged_partial
+#print axioms LyModel.Props.C01LybTree.lyb_tree_roundtrip_tagged_fixed
 #print axioms LyModel.Props.C01LybTree.lyb_tree_roundtrip_gen
 #print axioms LyModel.Props.C01LybTree.rev_ok
 #print axioms LyModel.Props.C01LybTree.lyb_node_head_roundtrip
@@ -30,3 +32,5 @@ import LyModel.Props.C01LybTree
 #print axioms LyModel.Props.C01LybTree.exPrint
 #print axioms LyModel.Props.C01LybTree.lyb_tree_print_total_fails
 #print axioms LyModel.Props.C01LybTree.lyb_tree_roundtrip_tagged_fails
+#print axioms LyModel.Props.C01LybTree.lyb_meta_skip_fixed
+#print axioms LyModel.Props.C01LybTree.lyb_meta_skip_fails
